@@ -350,6 +350,9 @@ class Escape(object):
             return None
         if isinstance(e, ast.Name):
             return self.kinds.get(e.id)
+        if isinstance(e, ast.IfExp):
+            a, b = self.expr_kind(e.body, fi), self.expr_kind(e.orelse, fi)
+            return a if a == b else None
         if isinstance(e, ast.BinOp) and isinstance(e.op, ast.Add):
             a, b = self.expr_kind(e.left, fi), self.expr_kind(e.right, fi)
             return a if a == b else None
